@@ -3,6 +3,9 @@ Line-protocol driver for the value-level VM model (Model/VmState.lean, Model/Vm.
 
 One request per line:
 
+  check <env>
+      → "ok <n>" (all n chunks of the environment pass `checkChunk`) |
+        "fail <n> <failed> <kind:template:name:index-of-first-unverified-instruction>…"
   render n:<template> B0|(B1 n:<block>) <env> R<r> (X<k> (n:<name> <value>)*k G<k> (n:<name> <value>)*k)*r
 
 `<env>` is the token stream of `tera::verif_hooks::vm_env_wire` (grammar in its header): every
@@ -19,6 +22,7 @@ leave open (Unicode case mapping of non-ASCII text, float parsing, `round` with 
 shortest-round-trip algorithm of Driver/C03.lean (copied: a driver cannot import another driver).
 -/
 import TeraModel.Model.Vm
+import TeraModel.Model.VmCheck
 import TeraModel.Model.Builtins
 import TeraModel.Model.AstWire
 import TeraModel.Generated.Builtins
@@ -370,28 +374,34 @@ def showRErr : RErr → String
 
 def FUEL : Fuel := { depth := 400, steps := 2000000 }
 
+def mkEnv (tpls : List (String × TemplateInfo)) (gcomps : List (String × (Component.Def × Chunk)))
+    (filters tests fns : List String) : Env := {
+    templates := tpls, components := gcomps,
+    hasFilter := filters.contains, hasTest := tests.contains, hasFunction := fns.contains,
+    callFilter := callFilterImpl, filterIsSafe := fun _ => false,
+    callTest := callTestImpl, callFunction := callFunctionImpl, functionIsSafe := fun _ => false,
+    F := nativeOps, fmtF64 := fmtF64 }
+
+def pEnv : P Env := fun r => do
+  let (tpls, r) ← pCounted "T" pTemplate r
+  let (gcomps, r) ← pCounted "GC" pComponent r
+  let (filters, r) ← pCounted "F" AstWire.parseName r
+  let (tests, r) ← pCounted "TS" AstWire.parseName r
+  let (fns, r) ← pCounted "FN" AstWire.parseName r
+  pure (mkEnv tpls gcomps filters tests fns, r)
+
 def handleRender (ts : List String) : Except String String := do
   let some (main, r) := AstWire.parseName ts | throw "name"
   let some (block, r) := (match r with
     | "B0" :: r => some (none, r)
     | "B1" :: r => (AstWire.parseName r).map fun (b, r) => (some b, r)
     | _ => none : Option (Option String × List String)) | throw "block"
-  let some (tpls, r) := pCounted "T" pTemplate r | throw "templates"
-  let some (gcomps, r) := pCounted "GC" pComponent r | throw "components"
-  let some (filters, r) := pCounted "F" AstWire.parseName r | throw "filters"
-  let some (tests, r) := pCounted "TS" AstWire.parseName r | throw "tests"
-  let some (fns, r) := pCounted "FN" AstWire.parseName r | throw "functions"
+  let some (env, r) := pEnv r | throw "env"
   let some (runs, r) := pCounted "R" (fun ts => do
       let (ctx, r) ← pCounted "X" pBinding ts
       let (glob, r) ← pCounted "G" pBinding r
       pure ((ctx, glob), r)) r | throw "contexts"
   if !r.isEmpty then throw "trailing"
-  let env : Env := {
-    templates := tpls, components := gcomps,
-    hasFilter := filters.contains, hasTest := tests.contains, hasFunction := fns.contains,
-    callFilter := callFilterImpl, filterIsSafe := fun _ => false,
-    callTest := callTestImpl, callFunction := callFunctionImpl, functionIsSafe := fun _ => false,
-    F := nativeOps, fmtF64 := fmtF64 }
   let one (cg : Ctx × Ctx) : String :=
     match render FUEL env main block cg.1 cg.2 with
     | .ok text => "ok " ++ Wire.hexOfStr text
@@ -401,10 +411,39 @@ def handleRender (ts : List String) : Except String String := do
     | .outOfFuel => "fuel"
   pure (String.intercalate ";" (runs.map one))
 
+/-- index of the first instruction the table leaves unverified (diagnostics only) -/
+def firstBad (code : List VEntry) : String :=
+  match infer code with
+  | none => "infer"
+  | some table =>
+    match (List.range code.length).find? (fun pc => !verifyAt code table pc) with
+    | some pc => toString pc
+    | none => "start"
+
+def allChunks (env : Env) : List (String × Chunk) :=
+  env.templates.flatMap (fun (n, t) =>
+    [("main:" ++ n, t.chunk)]
+    ++ t.blockLineage.flatMap (fun (b, l) => l.map fun ch => ("block:" ++ n ++ ":" ++ b, ch))
+    ++ t.components.map (fun (cn, (_, ch)) => ("tcomp:" ++ n ++ ":" ++ cn, ch)))
+  ++ env.components.map (fun (cn, (_, ch)) => ("comp:" ++ cn, ch))
+
+def handleCheck (ts : List String) : Except String String := do
+  let some (env, r) := pEnv ts | throw "env"
+  if !r.isEmpty then throw "trailing"
+  let chunks := allChunks env
+  let bad := chunks.filter fun (_, ch) => !checkChunk env ch
+  if bad.isEmpty then pure s!"ok {chunks.length}"
+  else pure (s!"fail {chunks.length} {bad.length} " ++
+    String.intercalate " " (bad.map fun (id, ch) => id ++ ":" ++ firstBad ch.code))
+
 def handle (line : String) : String :=
   match Wire.tokens line with
   | "render" :: rest =>
     match handleRender rest with
+    | .ok s => s
+    | .error w => "bad-request " ++ w
+  | "check" :: rest =>
+    match handleCheck rest with
     | .ok s => s
     | .error w => "bad-request " ++ w
   | _ => "bad-request op"
